@@ -112,6 +112,7 @@ func CurName() string {
 	return "-"
 }
 
+//go:norace
 func (w *World) newProc(name, path string, args, env []string, parent *Proc) *Proc {
 	w.mu.Lock()
 	defer w.mu.Unlock()
@@ -154,12 +155,14 @@ func (w *World) NewHost(name string, env []string) *Proc {
 	return p
 }
 
+//go:norace
 func (w *World) ProcByName(name string) *Proc {
 	w.mu.Lock()
 	defer w.mu.Unlock()
 	return w.byName[name]
 }
 
+//go:norace
 func (w *World) ProcByPid(pid int) *Proc {
 	w.mu.Lock()
 	defer w.mu.Unlock()
@@ -167,6 +170,8 @@ func (w *World) ProcByPid(pid int) *Proc {
 }
 
 // Procs returns all processes ever created, by pid.
+//
+//go:norace
 func (w *World) Procs() []*Proc {
 	w.mu.Lock()
 	defer w.mu.Unlock()
@@ -196,6 +201,8 @@ type SpawnOpts struct {
 
 // Spawn starts program path as a new process: a goroutine tree labelled with
 // the process identity, running the registered main.
+//
+//go:norace
 func (w *World) Spawn(name, path string, args, env []string, stdin, stdout, stderr *File, opts *SpawnOpts) (*Proc, error) {
 	w.mu.Lock()
 	main := w.programs[path]
@@ -289,6 +296,8 @@ func Trap(f func()) {
 
 // gate parks the calling goroutine while its process is stopped and for ever
 // once it is dead.
+//
+//go:norace
 func (p *Proc) gate() {
 	if p == nil {
 		return
@@ -312,6 +321,7 @@ func (p *Proc) gate() {
 // Gate is gate for shims.
 func (p *Proc) Gate() { p.gate() }
 
+//go:norace
 func (p *Proc) State() ProcState {
 	p.w.mu.Lock()
 	defer p.w.mu.Unlock()
@@ -325,6 +335,7 @@ func (p *Proc) Alive() bool {
 
 func (p *Proc) ExitChan() <-chan struct{} { return p.exitCh }
 
+//go:norace
 func (p *Proc) addFd(c closer) {
 	p.w.mu.Lock()
 	if p.state == Running || p.state == Stopped {
@@ -333,6 +344,7 @@ func (p *Proc) addFd(c closer) {
 	p.w.mu.Unlock()
 }
 
+//go:norace
 func (p *Proc) delFd(c closer) {
 	p.w.mu.Lock()
 	delete(p.fds, c)
@@ -341,6 +353,8 @@ func (p *Proc) delFd(c closer) {
 
 // die marks the process dead and closes everything it owned, the way the
 // kernel does: peers see EOF/reset, socket files stay.
+//
+//go:norace
 func (p *Proc) die(code int, signaled bool, why string) bool {
 	w := p.w
 	w.mu.Lock()
@@ -408,6 +422,8 @@ func (p *Proc) Exit(code int) {
 func (p *Proc) Crash(code int, why string) { p.die(code, true, why) }
 
 // Kill delivers SIGKILL.
+//
+//go:norace
 func (p *Proc) Kill() error {
 	p.w.mu.Lock()
 	st := p.state
@@ -449,6 +465,8 @@ func (p *Proc) Cont() {
 
 // SignalNum delivers a catchable signal: to registered channels, else default
 // action (terminate) for SIGINT/SIGTERM; signal 0 only probes.
+//
+//go:norace
 func (p *Proc) SignalNum(sig int, s Signal) error {
 	p.w.mu.Lock()
 	st := p.state
@@ -485,6 +503,8 @@ func (p *Proc) NotifySignal(sig int, c chan<- Signal) {
 
 // Wait blocks until the process has exited and reaps it. Only meaningful for
 // the parent.
+//
+//go:norace
 func (p *Proc) Wait() (code int, signaled bool, err error) {
 	<-p.exitCh
 	p.w.mu.Lock()
@@ -502,6 +522,8 @@ func (p *Proc) Wait() (code int, signaled bool, err error) {
 
 // Getenv follows the C library: first match wins (os/exec de-duplicates to
 // the last assignment before exec, see simexec).
+//
+//go:norace
 func (p *Proc) Getenv(key string) (string, bool) {
 	p.w.mu.Lock()
 	defer p.w.mu.Unlock()
@@ -538,6 +560,7 @@ func (p *Proc) Unsetenv(key string) {
 	p.Env = out
 }
 
+//go:norace
 func (p *Proc) Environ() []string {
 	p.w.mu.Lock()
 	defer p.w.mu.Unlock()
